@@ -35,6 +35,8 @@ func main() {
 		index    = fs.Int("index", 0, "pool index (solo)")
 		count    = fs.Int("count", 1, "how many pool entries (solo: each still needs its own process unless -count>1 is explicitly asked for)")
 		npool    = fs.Int("n", 200, "pool size (genpool)")
+		family   = fs.String("family", "", "force one schedule family (conc)")
+		dumpep   = fs.Bool("dumpep", false, "conc: print episode -from as a self-contained replay episode and exit")
 		eidx     = fs.Int("eidx", 0, "enumeration share index")
 		en       = fs.Int("en", 1, "enumeration share count")
 		minimise = fs.Bool("minimise", false, "with -case: shrink the case while the same check fails, print the result")
@@ -52,7 +54,7 @@ func main() {
 		os.Exit(soloMain(*pool, *index, *count))
 	case "conc":
 		os.Exit(concMain(concArgs{config: *config, seed: *seed, worker: *worker, pool: *pool, ref: *refFile, from: *from, to: *to,
-			dur: *dur, caseFile: *caseFile, trace: *trace}))
+			dur: *dur, caseFile: *caseFile, trace: *trace, family: *family, dumpep: *dumpep}))
 	case "canary":
 		os.Exit(canaryMain(*prop == "locked"))
 	default:
